@@ -581,7 +581,9 @@ def mono_oracle(case, out, debug=True):
                     chunks = range(a // PGC, (e - 1) // PGC + 1) if n else range(a // PGC, a // PGC + 1)
                     inside = all(DFIRST <= x <= DLAST and st["desc"][x - DFIRST + 1] == descs[k] for x in chunks)
                     onlist = any(r[0] * PGC <= a and e <= (r[0] + r[1]) * PGC for r in ms[k]["list"])
-                    if not inside or not onlist:
+                    # a request for 0 pages is granted as the empty range at the cursor (cursor 0 on a resource that
+                    # owns no region yet): it occupies nothing, so "inside the space" is vacuous for it
+                    if n > 0 and (not inside or not onlist):
                         add("mono:grant-outside-space", f"{op}: granted pages [{c}+{off}, +{n} pages) = chunks {list(chunks)[:4]} do not lie in chunks "
                             f"carrying the resource's descriptor {descs[k]} / on its region list {ms[k]['list'][:4]} (the pool: avail={st['avail']})")
                     for k2, gl in enumerate(grants):
